@@ -286,14 +286,19 @@ def run_check(prop, pid, tier, seed):
                     if c_.meta.get("ind") == "MFI" and c_.dump and any(
                             isinstance(v, float) and (v != v or abs(v) > 1e300) for o in c_.ops for v in o[2:] if o[0] in ("n", "b", "i", "j")):
                         c_.dump = ()
-                run_harness(ctx.binary, cases, pid)
+                from props.util import aux_clone_cases, aux_bigperiod_cases
+                aux = aux_clone_cases() if not getattr(prop, "no_aux", False) else []
+                if getattr(prop, "aux_big", False):      # the properties about windowed values (costly: O(period) per model step)
+                    aux += aux_bigperiod_cases()
+                ctx.stats["aux_t1_only_cases"] = len(aux)
+                run_harness(ctx.binary, cases + aux, pid)
                 # --- T1: bit-exact agreement with the float instance of the model
                 # cases marked harness_only are too expensive for the list-based model (O(period) per ring update at periods
                 # beyond 2^16); they are run on the implementation only and judged by the property's predicate
-                t1cases = [c for c in cases if not (isinstance(c.meta, dict) and c.meta.get("harness_only"))]
+                t1cases = [c for c in cases + aux if not (isinstance(c.meta, dict) and c.meta.get("harness_only"))]
                 ctx.stats["harness_only_cases"] = len(cases) - len(t1cases)
                 t1 = coq_check_cases(t1cases, pid)
-                for c in cases:
+                for c in cases + aux:
                     c.t1 = 0
                 for c, r in zip(t1cases, t1):
                     c.t1 = r
@@ -327,15 +332,17 @@ def run_check(prop, pid, tier, seed):
                 # --- property predicates evaluated on the implementation's own outputs
                 pv += prop.check_impl(ctx, cases)
                 violations.extend(pv)
-                if t1_bad and not any(v.kind == "property" for v in pv):
+                # auxiliary (T1-only) cases are not shaped like the property's own: they take no part in the escalated searches
+                t1_esc = [c_ for c_ in t1_bad if not (isinstance(c_.meta, dict) and c_.meta.get("aux"))]
+                if t1_esc and not any(v.kind == "property" for v in pv):
                     # correspondence broken, no property failure among the generated cases: escalate the search
                     if hasattr(prop, "search"):
-                        violations.extend(prop.search(ctx, t1_bad))
-                if t1_bad and hasattr(prop, "t2_checker") and not any(v.kind == "property" for v in violations):
+                        violations.extend(prop.search(ctx, t1_esc))
+                if t1_esc and hasattr(prop, "t2_checker") and not any(v.kind == "property" for v in violations):
                     # the correspondence broke: evaluate the property's tolerance predicate on every mismatching case
                     # (truncated shortly after the first differing op), whether or not it was selected for T2 before
                     cand = []
-                    for c_ in t1_bad[:24]:
+                    for c_ in t1_esc[:24]:
                         k_ = min(len(c_.ops), (c_.t1 + 6) if c_.t1 < 1000000 else min(len(c_.ops), 80))
                         cc = Case(c_.cid + "_t", c_.ops[:k_], dump=(), meta=dict(c_.meta))
                         cc.obs = c_.obs[:k_]
@@ -351,7 +358,7 @@ def run_check(prop, pid, tier, seed):
                     except Exception:  # noqa
                         pass
                 if t1_bad:
-                    t1_bad.sort(key=lambda x_: 0 if x_.t1 < 1000000 else 1)
+                    t1_bad.sort(key=lambda x_: (1 if (isinstance(x_.meta, dict) and x_.meta.get("aux")) else 0, 0 if x_.t1 < 1000000 else 1))
                     c = t1_bad[0]
                     small = shrink_t1(ctx, c, c.t1) if c.t1 < 1000000 else c
                     try:
@@ -359,7 +366,7 @@ def run_check(prop, pid, tier, seed):
                     except Exception as e:  # noqa
                         model = str(e)[-300:]
                     # the shrunk mismatching case is a candidate failing input: evaluate the property's tolerance predicate (T2) on it
-                    if hasattr(prop, "t2_checker") and not any(v.kind == "property" for v in violations) and small.obs is not None:
+                    if hasattr(prop, "t2_checker") and not (isinstance(c.meta, dict) and c.meta.get("aux")) and not any(v.kind == "property" for v in violations) and small.obs is not None:
                         try:
                             r2 = coq_check_cases([small], pid + "t2s", checker=prop.t2_checker,
                                                  extra_header="From TA Require Import XQ Run2.\n", timeout=600)
